@@ -1088,6 +1088,16 @@ pub struct Tree {
     pub files: BTreeMap<String, Vec<u8>>,
     /// Length of each file at its last sync (0 if never synced).
     pub durable_len: BTreeMap<String, u64>,
+    /// Directory entries (files and directories) created since the last fsync of their parent
+    /// directory: POSIX lets a crash lose them, whatever was fsynced *inside* them.
+    pub volatile_entries: std::collections::BTreeSet<String>,
+    /// Renames since the last fsync of the directory: (from, to, what `to` held before, was
+    /// `from` itself a volatile entry).
+    pub volatile_renames: Vec<(String, String, Option<Vec<u8>>, bool)>,
+}
+
+fn parent_of(path: &str) -> &str {
+    path.rsplit_once('/').map(|x| x.0).unwrap_or("")
 }
 
 impl Tree {
@@ -1095,10 +1105,15 @@ impl Tree {
         match ev {
             Ev::Mkdir { path } => {
                 self.dirs.insert(path.clone());
+                // (the root of the observed tree is taken as durable)
+                if !path.is_empty() {
+                    self.volatile_entries.insert(path.clone());
+                }
             }
             Ev::Create { path } => {
                 self.files.insert(path.clone(), vec![]);
                 self.durable_len.insert(path.clone(), 0);
+                self.volatile_entries.insert(path.clone());
             }
             Ev::Truncate { path, len } => {
                 let f = self.files.entry(path.clone()).or_default();
@@ -1118,9 +1133,22 @@ impl Tree {
                 let len = self.files.get(path).map(|f| f.len()).unwrap_or(0) as u64;
                 self.durable_len.insert(path.clone(), len);
             }
-            Ev::SyncDir { .. } => {}
+            Ev::SyncDir { path } => {
+                let p = path.as_str();
+                self.volatile_entries.retain(|e| parent_of(e) != p);
+                self.volatile_renames.retain(|(_, to, _, _)| parent_of(to) != p);
+            }
             Ev::Rename { from, to } => {
                 if let Some(f) = self.files.remove(from) {
+                    // (a rename replaces the target atomically: after a crash the name leads to
+                    // the old or to the new file, never to nothing - unless the target's own
+                    // entry was still volatile)
+                    let old = self.files.get(to).cloned();
+                    let from_volatile = self.volatile_entries.remove(from);
+                    if old.is_none() && from_volatile {
+                        self.volatile_entries.insert(to.clone());
+                    }
+                    self.volatile_renames.push((from.clone(), to.clone(), old, from_volatile));
                     self.files.insert(to.clone(), f);
                     let d = self.durable_len.remove(from).unwrap_or(0);
                     self.durable_len.insert(to.clone(), d);
@@ -1129,11 +1157,57 @@ impl Tree {
             Ev::Unlink { path } => {
                 self.files.remove(path);
                 self.durable_len.remove(path);
+                self.volatile_entries.remove(path);
             }
             Ev::Rmdir { path } => {
                 self.dirs.remove(path);
+                self.volatile_entries.remove(path);
             }
         }
+    }
+
+    /// Crash with directory entries lost: undo the renames and drop the entries (with everything
+    /// below them) that no fsync of their directory had made durable. `pick(i)` says whether the
+    /// i-th candidate is lost (a crash may lose any subset).
+    pub fn lose_volatile_entries(&mut self, mut pick: impl FnMut(usize) -> bool) -> usize {
+        let mut lost = 0;
+        let mut i = 0;
+        // renames, newest first
+        let renames: Vec<_> = self.volatile_renames.drain(..).rev().collect();
+        for (from, to, old, from_volatile) in renames {
+            i += 1;
+            if !pick(i) {
+                continue;
+            }
+            lost += 1;
+            if let Some(cur) = self.files.remove(&to) {
+                self.files.insert(from.clone(), cur);
+                let d = self.durable_len.remove(&to).unwrap_or(0);
+                self.durable_len.insert(from.clone(), d);
+                self.volatile_entries.remove(&to);
+                if from_volatile {
+                    self.volatile_entries.insert(from);
+                }
+            }
+            if let Some(o) = old {
+                self.durable_len.insert(to.clone(), o.len() as u64);
+                self.files.insert(to, o);
+            }
+        }
+        let entries: Vec<String> = self.volatile_entries.iter().cloned().collect();
+        for e in entries {
+            i += 1;
+            if !pick(i) {
+                continue;
+            }
+            lost += 1;
+            let prefix = format!("{e}/");
+            self.files.retain(|p, _| *p != e && !p.starts_with(&prefix));
+            self.durable_len.retain(|p, _| *p != e && !p.starts_with(&prefix));
+            self.dirs.retain(|p| *p != e && !p.starts_with(&prefix));
+        }
+        self.volatile_entries.clear();
+        lost
     }
 
     pub fn from_journal(j: &[Ev]) -> Tree {
